@@ -124,7 +124,23 @@ fn ageing_program(c: &mut Choices) -> (String, String) {
     let mut counter: i64 = 0;
     let mut checks = 0;
     for step in 0..nsteps {
-        match c.weighted(&[4, 8, 5, 1, 4, 3]) {
+        match c.weighted(&[4, 8, 5, 1, 4, 3, 3]) {
+            6 => {
+                // interior reference (`ref mut` to a field of a heap object) held across a collection, next to an
+                // ordinary reference to the same object
+                let i = c.below(k);
+                if let Some(vals) = pool[i].as_mut() {
+                    let f = c.below(3);
+                    if vals[f] != 0 {
+                        let fname = ["a", "b", "c"][f];
+                        counter += 1;
+                        let helper = c.pick_str(&["upd", "upd2"]);
+                        let how = c.below(3);
+                        body.push_str(&format!("    {{ let q = ps({i}).get_or_panic().{fname}.get_or_panic(); let old = {helper}(q, ref mut q.v, {how}, {counter}); if old != {} {{ println(\"ref-old ${{old}}\"); }} }}\n", vals[f]));
+                        vals[f] = counter;
+                    }
+                }
+            }
             0 => {
                 let i = c.below(k);
                 let mut vals = [0i64; 3];
@@ -199,6 +215,23 @@ fn checksum(ps: Array[Option[P]]): Int64 {{
     }}
     sum
 }}
+fn weight(q: Q, k: Int64): Int64 {{ garbage(1); q.v + k }}
+fn upd(q: Q, r: ref mut Int64, how: Int64, nv: Int64): Int64 {{
+    if how == 0 {{ std::force_minor_collect(); }} else if how == 1 {{ std::force_collect(); }} else {{ garbage(3000); }}
+    let old = r;
+    r = nv;
+    if q.v != nv {{ println("ref-write-lost ${{q.v}} ${{nv}}"); }}
+    old
+}}
+fn weight2(q: Q, p: Q): Int64 {{ garbage(1); q.v + p.v }}
+fn upd2(q: Q, r: ref mut Int64, how: Int64, nv: Int64): Int64 {{
+    let keep = q;
+    if how == 0 {{ std::force_minor_collect(); }} else if how == 1 {{ std::force_collect(); }} else {{ garbage(3000); }}
+    let old = r;
+    r = nv;
+    if keep.v != nv {{ println("ref-write-lost ${{keep.v}} ${{nv}}"); }}
+    old
+}}
 fn garbage(n: Int64) {{
     let mut i = 0;
     while i < n {{
@@ -231,6 +264,11 @@ impl Prop for GcInvisible {
             for cfg in configs.iter_mut() {
                 if cfg.flags.contains("stress") {
                     cfg.flags = cfg.flags.replace("--disable-tlab", "").replace("  ", " ").trim().to_string();
+                }
+                // corpus programs allocate freely; a collection of the generational collector at every TLAB refill
+                // (60 ms for a full one) does not finish within the limit — stress stays on for copy and sweep
+                if cfg.gc == "swiper" {
+                    cfg.flags = cfg.flags.replace("--gc-stress-minor", "").replace("--gc-stress", "").replace("  ", " ").trim().to_string();
                 }
             }
         }
@@ -426,11 +464,31 @@ pub fn main(mode: Mode) -> i32 {
                 println!("INCONCLUSIVE property=C03 the optimizing compiler could not be bootstrapped from this tree");
                 return 2;
             }
-            ctx.rule = "cases: a program x a generated list of 3-4 collector configurations x a code generator x (release|debug) runtime. programs: typed-generator programs in the allocation-heavy profile (churn loops allocating classes/arrays/tuples with strings/strings, forced full and minor collections at generated points, closures capturing references, old objects pointing to fresh ones) with the reference interpreter's expected result; runnable corpus programs; a parametrised churn program (linked nodes with payload arrays and strings, bounded live set <= 64 nodes, total allocation >= 20x the 32 MiB heap) with a closed-form expected result (half of them on a 2-8 MiB heap where --disable-tlab is affordable, so free-list reuse and promotion under pressure occur); 'ageing' programs: a pool of 2-7 objects with three reference fields that are re-pointed to fresh objects at generated moments between forced minor/full collections and bursts of garbage (survivor ageing, promotion with old-to-young references in any field position, write barrier, remembered set), expected output computed by interpreting the same script. configurations: gc in {swiper, copy, sweep, zero} x {-, --gc-stress, --gc-stress-minor} x --disable-tlab x --gc-worker in {1,2,8} x --gc-verify x young/heap sizes. oracle: every configuration gives the reference result (or, for corpus programs, the same result as the first configuration); no signal, no runtime-internal panic (covers --gc-verify failures and debug assertions); bounded-live-set programs never end in 'out of memory' under a reclaiming collector. non-trivial = case in which >= 2 reclaiming configurations ran a program that forces or provokes collections; distinct by (source, configurations, generator, runtime) hash".into();
+            ctx.rule = "cases: a program x a generated list of 3-4 collector configurations x a code generator x (release|debug) runtime. programs: typed-generator programs in the allocation-heavy profile (churn loops allocating classes/arrays/tuples with strings/strings, forced full and minor collections at generated points, closures capturing references, old objects pointing to fresh ones) with the reference interpreter's expected result; runnable corpus programs (the ones about interior references and collectors, test/rt/ref and test/rt/gc, always and in full); a parametrised churn program (linked nodes with payload arrays and strings, bounded live set <= 64 nodes, total allocation >= 20x the 32 MiB heap) with a closed-form expected result (half of them on a 2-8 MiB heap where --disable-tlab is affordable, so free-list reuse and promotion under pressure occur); 'ageing' programs: a pool of 2-7 objects with three reference fields that are re-pointed to fresh objects at generated moments between forced minor/full collections and bursts of garbage (survivor ageing, promotion with old-to-young references in any field position, write barrier, remembered set), expected output computed by interpreting the same script. configurations: gc in {swiper, copy, sweep, zero} x {-, --gc-stress, --gc-stress-minor} x --disable-tlab x --gc-worker in {1,2,8} x --gc-verify x young/heap sizes. oracle: every configuration gives the reference result (or, for corpus programs, the same result as the first configuration); no signal, no runtime-internal panic (covers --gc-verify failures and debug assertions); bounded-live-set programs never end in 'out of memory' under a reclaiming collector. non-trivial = case in which >= 2 reclaiming configurations ran a program that forces or provokes collections; distinct by (source, configurations, generator, runtime) hash".into();
             ctx.assumptions = vec!["multi-threaded allocation is covered only through C09's workloads".into()];
             ctx.run_regressions(&p);
             ctx.run_known_reproducers(&p);
-            let n = ctx.n(60, 1500);
+            // sentinel part of the corpus, always run in full: the repository's programs about interior references
+            // (`ref`) and about the collectors — each under the generational collector with heap verification
+            // and under the copying collector, with both code generators
+            {
+                let all = crate::c02::corpus_cases(true).0;
+                let mut cases = vec![];
+                for base in all.iter().filter(|c| (c.label.contains("test/rt/ref/") || c.label.contains("test/rt/gc/")) && c.expect_status.is_none() && c.args.is_empty()) {
+                    for backend in Backend::BOTH {
+                        cases.push(GcCase {
+                            prog: ProgCase { source: base.source.clone(), expected: None, stats: vec![("forced-collection".into(), 1)], features: vec![] },
+                            label: format!("sentinel:{}", base.label),
+                            backend,
+                            debug_runtime: false,
+                            configs: vec![GcConfig { gc: "swiper".into(), flags: "--gc-verify".into() }, GcConfig { gc: "copy".into(), flags: String::new() }],
+                            reclaim: None,
+                        });
+                    }
+                }
+                ctx.run_enum(&p, cases);
+            }
+            let n = ctx.n(44, 1500);
             ctx.run_search(&p, n, 2700, 0);
             ctx.require_class("gc-matrix/family:ageing");
             ctx.require_class("gc-matrix/family:churn");
